@@ -4,6 +4,7 @@ is read back identically by the independent decoder (which uses only `Spec/Publi
 The regenerated layouts/constants are proved equal to the published ones in `GenC12.lean`.
 -/
 import Bolt.Model.Encode
+import Bolt.Lemmas.Encode
 namespace Bolt.C12
 open Bolt Bolt.Enc
 
@@ -12,20 +13,22 @@ theorem header_roundtrip (id flags count overflow : Nat) (rest : Bytes)
     (h1 : id < 2^64) (h2 : flags < 2^16) (h3 : count < 2^16) (h4 : overflow < 2^32) :
     pageHdrAt (fileOf (header id flags count overflow ++ rest)) 0 =
       { id := id, flags := flags, count := count, overflow := overflow } := by
-  sorry
+  exact pageHdrAt_header id flags count overflow rest h1 h2 h3 h4
 
 /-- **leaf pages**: for every list of elements (any keys/values/flags within the field
     widths, any count below 0xFFFF) the decoder returns exactly the elements written -/
 theorem leaf_roundtrip (id overflow : Nat) (es : List LeafElem) (span : Nat) (pad : Bytes)
     (hok : LeafOK es span) (hid : id < 2^64) (hov : overflow < 2^32) :
     leafElems (fileOf (leafPage id overflow es ++ pad)) 0 span es.length = some es := by
-  sorry
+  have _ := hid; have _ := hov  -- the element tables do not depend on the header fields
+  exact leafElems_leafPage id overflow es span pad hok
 
 /-- **branch pages** -/
 theorem branch_roundtrip (id overflow : Nat) (es : List BranchElem) (span : Nat) (pad : Bytes)
     (hok : BranchOK es span) (hid : id < 2^64) (hov : overflow < 2^32) :
     branchElems (fileOf (branchPage id overflow es ++ pad)) 0 span es.length = some es := by
-  sorry
+  have _ := hid; have _ := hov
+  exact branchElems_branchPage id overflow es span pad hok
 
 /-- **freelist pages**, for every length — below and at/above 65535 entries (the 0xFFFF
     count convention) -/
@@ -33,7 +36,8 @@ theorem freelist_roundtrip (id overflow : Nat) (ids : List Nat) (ps : Nat) (pad 
     (hid : id < 2^64) (hov : overflow < 2^32) (hids : ∀ q ∈ ids, q < 2^64) (hlen : ids.length < 2^64)
     (hfit : 16 + 8 * (ids.length + 1) ≤ (overflow + 1) * ps) (hps : 0 < ps) :
     decodeFreelist (fileOf (freelistPage id overflow ids ++ pad)) ps 0 = .ok (ids, overflow) := by
-  sorry
+  have _ := hps  -- `hfit` already bounds the span
+  exact decodeFreelist_freelistPage id overflow ids ps pad hid hov hids hlen hfit
 
 /-- **meta pages**: `encodeMeta` is valid and decodes to the same fields with the checksum filled in -/
 theorem meta_roundtrip (m : Meta) (rest : Bytes)
@@ -46,10 +50,16 @@ theorem meta_roundtrip (m : Meta) (rest : Bytes)
     (metaAt (fileOf (encodeMeta m ++ rest)) 0).freelist = m.freelist ∧
     (metaAt (fileOf (encodeMeta m ++ rest)) 0).pageSize = m.pageSize ∧
     (metaAt (fileOf (encodeMeta m ++ rest)) 0).seq = m.seq := by
-  sorry
+  have h := metaAt_encodeMeta m rest (by rw [hm]; decide) (by rw [hv]; decide) hps hf hr hs hfl hp ht
+  refine ⟨metaValid_encodeMeta m rest hm hv hps hf hr hs hfl hp ht, ?_⟩
+  rw [h]
+  exact ⟨rfl, rfl, rfl, rfl, rfl, rfl⟩
 
 /-- non-vacuity: a concrete leaf page with a nested-bucket element and an empty value -/
 example : LeafOK [⟨0, [1,2], []⟩, ⟨1, [3], [0,0,0,0,0,0,0,0, 5,0,0,0,0,0,0,0]⟩] 4096 := by
-  sorry
+  refine ⟨by decide, ?_, by decide, by decide⟩
+  intro e he
+  simp only [List.mem_cons, List.not_mem_nil, or_false] at he
+  rcases he with rfl | rfl <;> exact ⟨by decide, by decide, by decide⟩
 
 end Bolt.C12
